@@ -148,3 +148,29 @@ def compile_to_ir(schema, text: str, **options):
     return compiler.compile_ast_to_ir(
         tree, schema,
         options=compiler.CompilerOptions(modaliases={None: 'default'}, **options))
+
+
+def new_compiler():
+    """server compiler instance (edb.server.compiler.Compiler) over the cached std/reflection schema"""
+    if 'compiler' not in _STATE:
+        std = std_schema()
+        refl, layout = reflection()
+        from edb.server import compiler as edbcompiler
+        _STATE['compiler'] = edbcompiler.new_compiler(
+            std_schema=std, reflection_schema=refl, schema_class_layout=layout)
+    return _STATE['compiler']
+
+
+def server_context(user_schema, **kw):
+    """ad-hoc CompileContext (fresh CompilerConnectionState) as upstream's test_server_compiler does"""
+    from edb.server import compiler as edbcompiler
+    kw.setdefault('modaliases', {None: 'default'})
+    return edbcompiler.new_compiler_context(
+        compiler_state=new_compiler().state, user_schema=user_schema, **kw)
+
+
+def server_compile(ctx, text: str):
+    """real `compiler.compile(ctx, source)` -> QueryUnitGroup (capabilities, sql, descriptors, tx fields)"""
+    from edb.server.compiler import compiler as c
+    from edb import edgeql
+    return c.compile(ctx=ctx, source=edgeql.Source.from_string(text))
